@@ -13,7 +13,7 @@ SPECDIR = os.path.join(vlib.SPEC, 'ingest')
 ZONES = {'m5': (-5, 'America/New_York'), '0': (0, 'UTC'), 'p3': (3, 'Europe/Moscow')}
 
 CFG_LABELS = '''SPECIFICATION Spec
-INVARIANTS FingerprintIsFunctionOfSet NoCollision DocumentFaithful
+INVARIANTS FingerprintIsFunctionOfSet NoCollision DocumentFaithful SampleIndexed
 CONSTRAINT Accept
 %(diag)s
 CHECK_DEADLOCK FALSE
@@ -80,13 +80,17 @@ def run(tier):
                 raise vlib.Infra('c04 history (TZ=%s) failed: %s %s' % (tzname, (r.stdout + r.stderr)[-2000:], open(outp).read()[-1500:] if os.path.exists(outp) else ''))
             out = json.load(open(outp))
             total_beh += out['behaviours']
-            hist.append({'zone': tzname, 'behaviours': out['behaviours'], 'pushes': out['pushes'], 'cache_resets': out['cache_resets'], 'read_queries': out['read_queries'],
+            hist.append({'zone': tzname, 'behaviours': out['behaviours'], 'pushes': out['pushes'], 'cache_resets': out['cache_resets'], 'read_queries': out['read_queries'], 'unparsable_tails': out.get('unparsable_tails', {}),
                          'violations': len(out['violations'] or [])})
             if sample is None and behs:
                 sample = [{'action': s['action'], 'args': s['args']} for s in behs[0][1:]]
             for v in out['violations'] or []:
                 sig = v['signature'] if v['kind'] == 'conformance' else '%s|tz%+d' % (v['signature'], off) if 'another-day' in v['signature'] else v['signature']
                 real_sigs.setdefault(sig, v)
+        # vacuity: the replayed histories must contain requests rejected for a stream that does not parse, in both positions
+        for tl in ('bad_after', 'bad_before'):
+            if sum(h['unparsable_tails'].get(tl, 0) for h in hist) == 0 and not real_sigs:
+                raise vlib.Infra('no replayed history contains a push with tail %s' % tl)
         for sig, v in real_sigs.items():
             path = vlib.save_replay('C04', re.sub(r'[^A-Za-z0-9]+', '_', sig)[:100], v)
             viols.append({'property': 'C04', 'signature': sig, 'msg': v['msg'], 'replay': path})
@@ -99,13 +103,15 @@ def run(tier):
         if r.returncode != 0 or not os.path.exists(lo):
             raise vlib.Infra('c04 labels failed: ' + (r.stdout + r.stderr)[-2000:])
         lab = json.load(open(lo))
+        if any(n == 0 for n in lab['shape_runs'].values()) or len(lab['shape_runs']) < 2:
+            raise vlib.Infra('labels: a request shape was never run: %s' % lab['shape_runs'])
         for v in lab['violations'] or []:
             path = vlib.save_replay('C04', re.sub(r'[^A-Za-z0-9]+', '_', v['signature'])[:100], v)
             viols.append({'property': 'C04', 'signature': v['signature'], 'msg': v['msg'], 'replay': path})
         ok, detail, st = vlib.validate_trace(SPECDIR, 'Labels.tla', CFG_LABELS, lt, timeout=900)
         if not ok and detail.get('kind') == 'invariant':
             inv = detail['invariant']
-            have = any(v['signature'].startswith('labels|doc') or v['signature'].startswith('fingerprint') or v['signature'].startswith('labels|index') for v in viols)
+            have = any(v['signature'].startswith('labels|doc') or v['signature'].startswith('fingerprint') or v['signature'].startswith('labels|index') or v['signature'].startswith('labels|sample') for v in viols)
             if not have:
                 raise vlib.Infra('Labels.tla rejects the recorded trace (%s) but the driver found no corresponding mismatch' % inv)
         elif not ok:
@@ -114,7 +120,7 @@ def run(tier):
                'traces_validated_against_impl': total_beh + 1,
                'samples': [{'replayed_history': sample}, {'label_events': lab['events'], 'label_sets': lab['label_sets']}],
                'exhaustive': True, 'model_checks': mcs, 'history_replay': hist,
-               'labels': {k: lab[k] for k in ('label_sets', 'parser_runs', 'distinct_fingerprints', 'events')}, 'labels_trace': {'accepted': ok, 'detail': detail, 'tlc': st}}
+               'labels': {k: lab[k] for k in ('label_sets', 'parser_runs', 'distinct_fingerprints', 'events', 'shape_runs')}, 'labels_trace': {'accepted': ok, 'detail': detail, 'tlc': st}}
         if tier == 'thorough':
             # AckedDiscoverable is the logs/labels face of AckedReadable in the end-to-end composition (Qryn.tla, extra check X02):
             # all four signals, every read endpoint, parse errors and per-table insert faults; part of this property's deep tier
